@@ -16,7 +16,20 @@ ID = "C10"
 PROPS_FILE = "Props/C10.v"
 GEN_DEPS = ["GenUnits", "GenTemplates", "GenConsts"]
 ALLOWED_AXIOMS: List[str] = []
-THEOREMS: Dict[str, str] = {}
+THEOREMS: Dict[str, str] = {
+    "C10_escape_inert": "full",
+    "C10_escape_inert_merge": "full",
+    "C10_escape_inert_before_tag": "full",
+    "C10_attr_inert_in_tag": "full",
+    "C10_attr_inert": "full",
+    "C10_id_charset": "full",
+    "C10_template_sinks": "full",
+    "C10_markup_escape_inert": "full",
+    "C10_ex_tokenize": "example",
+    "C10_ex_escape": "example",
+    "C10_ex_sinks": "example",
+    "C10_ex_id": "example",
+}
 TRUSTED = [
     "Coq 8.16.1 kernel (vm_compute for correspondence)",
     "Model/HtmlTok.v: the tokenizer specification is a hand transcription of the WHATWG tokenizer restricted to "
@@ -408,7 +421,11 @@ def tok_case(html: str) -> Case:
 def escape_case(kind: str, x: str) -> Case:
     import html as H
     from xml.sax.saxutils import quoteattr
-    out = quoteattr(x) if kind == "quoteattr" else H.escape(x)
+    if kind == "markup":
+        import markupsafe
+        out = str(markupsafe.escape(x))
+    else:
+        out = quoteattr(x) if kind == "quoteattr" else H.escape(x)
     viol = None
     # oracle: a parser reads the text / attribute back unchanged
     if kind == "quoteattr":
@@ -442,6 +459,7 @@ def _suites_empty() -> Dict[str, Suite]:
         "tok": Suite("tok", imp, "str", "list token", "check_tokenize", show="tokenize", shard=40),
         "quoteattr": Suite("quoteattr", imp, "str", "str", "check_quoteattr", show="quoteattr", shard=400),
         "escape": Suite("escape", imp, "str", "str", "check_html_escape", show="html_escape", shard=400),
+        "markup": Suite("markup", imp, "str", "str", "check_markup_escape", show="markup_escape", shard=400),
         "tfun": Suite("tfun", imp, "str * option str * list (str * str)", "str", "check_t",
                       show="(fun i => let '(a, b, c) := i in t a b c)", shard=200),
     }
@@ -468,11 +486,11 @@ def suites(tier: str, seed: int) -> List[Suite]:
     # hand-made
     for x in ["", "plain", "a<b", "a&b", "\"", "'", "\"'", "a\"b'c&<>", "\n", "\r", "\t", "a\nb", "&amp;", "&#10;",
               " ", "</td><script>", "' onmouseover='x", "\" onmouseover=\"x", "\\", "{{x}}", "{% x %}", "%", "#"]:
-        for k in ("quoteattr", "escape"):
+        for k in ("quoteattr", "escape", "markup"):
             S[k].cases.append(escape_case(k, x))
     for _ in range(600 if tier == "quick" else 10000):
         x = rand_text(rng, 0, 10)
-        for k in ("quoteattr", "escape"):
+        for k in ("quoteattr", "escape", "markup"):
             S[k].cases.append(escape_case(k, x))
     bodies = [None, "", "x", "a\nb", "a\n\nb", "a\n  \nb\n", " \n ", "a b\nc", "a\rb\nc\r\nd", "a\x0bb\nc", "\n",
               "x\n \ny", "a\x85b\nc \t"]
@@ -500,7 +518,7 @@ def replay(inp: Any) -> Case:
         return cells_case({"tree": inp["tree"], "prefix": inp["prefix"]})
     if su == "tok":
         return tok_case(inp["html"])
-    if su in ("quoteattr", "escape"):
+    if su in ("quoteattr", "escape", "markup"):
         return escape_case(su, inp["text"])
     if su == "tfun":
         return tfun_case(inp["tag"], inp["body"], [tuple(a) for a in inp["attrs"]])
